@@ -3,11 +3,20 @@
   Property theorems only (helper lemmas: Rdm/Lemmas/BiasA*.lean).  The model is
   Rdm/Model/Ordering.lean + Rdm/Model/BiasesA.lean, tied to the Go code bit-for-bit by the stages
   `split`, `order`, `omission-apply` of harness/main/c15.go.
+  Reduced-problem equivalence: Lemmas/BiasARestrict.lean (the restricted state), BiasAReducedParse.lean
+  (`ParseParams` of the seven methods, the reduced request, the seven commuting squares),
+  BiasAReducedDecision.lean (`evaluate`, the lift to the decision).  Spec tie: BiasAOmissionSpec.lean.
+  Choquet importance: BiasAChoquetImportance.lean.
 -/
 import Rdm.Lemmas.BiasAOmission
 import Rdm.Lemmas.BiasAReduced
 import Rdm.Lemmas.BiasARoulette
 import Rdm.Lemmas.BiasACumulated
+import Rdm.Lemmas.BiasARestrict
+import Rdm.Lemmas.BiasAReducedParse
+import Rdm.Lemmas.BiasAReducedDecision
+import Rdm.Lemmas.BiasAOmissionSpec
+import Rdm.Lemmas.BiasAChoquetImportance
 import Rdm.Spec.C15
 set_option linter.unusedSectionVars false
 open Rdm Rdm.BiasA
@@ -146,7 +155,7 @@ theorem ranking_uses_importance_map {eps : α} {d : DMP α} {r : List (WCrit α)
     (h : rankAsc eps d = .ok r) :
     ∃ w, importanceMap eps d = .ok w ∧ sortByWeights d.crit w = .ok r ∧
       ∀ x ∈ r, w.get? x.crit.id = some x.w := by
-  rw [rankAsc_eq_sort, bind_ok] at h
+  rw [rankAsc_eq_sort, BiasA.bind_ok] at h
   obtain ⟨w, hw, hs⟩ := h
   exact ⟨w, hw, hs, sortByWeights_weight hs⟩
 
@@ -183,6 +192,36 @@ theorem importance_weightedSum (eps : α) (d : DMP α) {wc : List (WCrit α)} (h
   obtain ⟨x, hx, hxw⟩ := hw a ha kv hkv
   simp only [hx, ← hxw]
   rfl
+
+/-- Choquet: the importance of a criterion is its decomposed capacity contribution — the sum, over the
+    considered alternatives (in order) and over the components `(remaining criteria, valueAdded)` of the
+    alternative's Choquet integral (`computeTotalWeight`, in order), of the `valueAdded` of the components
+    whose remaining set contains the criterion.  (`importanceMap` fails exactly when a considered
+    alternative holds an undeclared criterion or a capacity is missing: `chq_decompose_ok_iff`.) -/
+theorem importance_choquet (eps : α) (d : DMP α) {w : KMap α} {cs : List (Crit α)} (h : d.mp = .choquet w cs)
+    (hk : ∀ a ∈ d.co, a.vals.keys.Nodup) {acc : KMap α} (hok : importanceMap eps d = .ok acc) :
+    ∃ compss, List.Forall₂ (fun a comps =>
+        choquetComponents eps w (ascendingVals a) Num.zero = .ok comps) d.co compss ∧
+      ∀ c ∈ d.crit, acc.get? c.id = some (chq_importance c.id compss) :=
+  chq_importance_choquet eps d h hk hok
+
+/-- the closed formula as a plain double sum (over the rationals) -/
+theorem importance_choquet_formula (id : String) (compss : List (List (List String × Rat))) :
+    chq_importance id compss =
+      (compss.map fun comps => ((comps.filter fun comp => comp.1.contains id).map (·.2)).sum).sum :=
+  chq_importance_rat id compss
+
+/-- … and it is total on coherent states: considered alternatives hold declared criteria only (distinct
+    keys) and every capacity the integral looks up is present -/
+theorem importance_choquet_total (eps : α) (d : DMP α) {w : KMap α} {cs : List (Crit α)}
+    (h : d.mp = .choquet w cs) (hk : ∀ a ∈ d.co, a.vals.keys.Nodup)
+    (hkeys : ∀ a ∈ d.co, ∀ k ∈ a.vals.keys, ∃ c ∈ d.crit, c.id = k)
+    (hcap : ∀ a ∈ d.co, ∃ comps, choquetComponents eps w (ascendingVals a) Num.zero = .ok comps) :
+    ∃ acc compss, importanceMap eps d = .ok acc ∧
+      List.Forall₂ (fun a comps =>
+        choquetComponents eps w (ascendingVals a) Num.zero = .ok comps) d.co compss ∧
+      ∀ c ∈ d.crit, acc.get? c.id = some (chq_importance c.id compss) :=
+  chq_importance_choquet_total eps d h hk hkeys hcap
 
 /-- with ordering `weakest` (also the default) no kept criterion is less important than an omitted
     one: the listener's ascending ranking splits into the omitted prefix and the kept suffix -/
@@ -274,20 +313,52 @@ theorem byProbability_shares {ranked : List (WCrit Rat)} (hs : ranked.Pairwise (
   obtain ⟨m', dif, hm, hpos, hw⟩ := rouletteWeights_spec hs
   exact ⟨m', dif, hm, hpos, hw, fun a ha b _ hab => roulette_share_antitone hm (hpos a ha) hab⟩
 
-/-! ## the decision equals the one for the reduced request (parameter level)
+/-! ## the decision equals the one for the request with the omitted criteria deleted
 
-The full statement of the property — `evaluate (state after omission) = evaluate (parse (request − omitted))`
-for all seven methods — needs the evaluation models of the other work packages and is checked on the
-real code by the metamorphic oracle `omission-reduced-problem` (harness/main/c15.go).  Proved here, for
-every input: the alternatives handed on are the restrictions (`omission_restricts`), and for weighted
-sum, OWA and the majority heuristic the commuting square `onRemoved ∘ parse = parse ∘ restrict`.
-Not proved (stated in DESIGN §5.15): the squares for Choquet, ELECTRE III, aspect elimination and
-satisfaction, and the lifting from parameters to the ranking. -/
+Three layers (all inputs, all seven methods):
+
+1. **the state handed on** is `restrictState cur kept` — a closed expression that deletes the omitted
+   criteria from the criteria list, from every alternative's values and from every per-criterion structure
+   of the method parameters (`omission_hands_on_restricted_state`);
+2. **the parameters**: seven commuting squares `OnCriteriaRemoved ∘ ParseParams = ParseParams ∘ restrict`
+   (`reduced_problem_weightedSum`, `_owa`, `_choquet`, `_electre`, `_majority`, `_aspectElimination`,
+   `_satisfaction`), where `ParseParams` of each method is `parseParams` and the reduced request is
+   `restrictRaw kept raw` (Lemmas/BiasAReducedParse.lean);
+3. **the decision**: `evaluate (state after omission) = evaluate (state MakeDecision builds from the reduced
+   request)` (`omission_equals_reduced_problem`), quantified over the method.
+
+`ParseParams` (`parseParams`) and `Evaluate` (`evaluate`) are assembled in the Lemmas files from the model
+functions of the other properties (`zipWithWeights`, `sortWCrits`, `choquetParse`, `validateParameters`,
+`weightedSum`, `owa`, `choquetValue`, `ranking`, `electreIII`, `majorityEvaluate`, `aspectEvaluate`,
+`satisfactionEvaluate`), each of which is tied to the Go code by its own property's correspondence stages;
+the assembled whole is checked on the real code by the metamorphic oracle `omission-reduced-problem`
+(harness/main/c15.go). -/
+
+/-- the state criteria omission hands on is the current state with the omitted criteria deleted: criteria =
+    the kept ones; every known alternative (same ids, same order, considered / not considered as before)
+    holds the kept values only; the method parameters hold the kept criteria's entries only
+    (`restrictParams`: weighted criteria, capacities of subsets of the kept criteria, ELECTRE entries,
+    weights, explicit threshold levels level by level; coefficient levels, seeds, flags, current choice,
+    distillation function untouched).  Generic in the number type. -/
+theorem omission_hands_on_restricted_state {eps : α} {c : SplitCond α} {name : String} {cur res : DMP α}
+    {d : Draws α} {omitted : List (Crit α)} (h : omissionApply eps c name cur d = .ok (res, omitted)) :
+    res = restrictState cur res.crit := omissionApply_eq_restrictState h
+
+/-- the listeners' `OnCriteriaRemoved`, when it succeeds, is `restrictParams` -/
+theorem listener_removal_is_restriction {mp mp' : MParams α} {kept : List (Crit α)}
+    (h : onRemoved mp kept = .ok mp') : mp' = restrictParams mp kept := onRemoved_eq_restrict h
+
+/-- a restricted table holds, for every kept criterion, what the full table holds; and exactly the kept
+    ids when every kept criterion has an entry -/
+theorem restricted_table_lookup {β : Type} (m : KMap β) (kept : List (Crit α)) :
+    (∀ k ∈ kept, (restrictMap m kept).get? k.id = m.get? k.id) ∧
+      ((∀ k ∈ kept, (m.get? k.id).isSome) → (restrictMap m kept).keys = kept.map (·.id)) :=
+  ⟨fun _ hk => restrictMap_get? m kept hk, restrictMap_keys m kept⟩
 
 /-- weighted sum: `OnCriteriaRemoved` on the parsed parameters of the full request gives exactly the
     parsed parameters of the request that declares only the kept criteria (same weights on them;
     superfluous weight entries of either request are ignored) -/
-theorem reduced_problem_weightedSum_partial {all kept : List (Crit α)} {w w' : KMap α} {wc : List (WCrit α)}
+theorem reduced_problem_weightedSum {all kept : List (Crit α)} {w w' : KMap α} {wc : List (WCrit α)}
     (hz : zipWithWeights all w = .ok wc) (hnd : (all.map (·.id)).Nodup)
     (hsub : ∀ k ∈ kept, k ∈ all) (hw : ∀ k ∈ kept, w'.get? k.id = w.get? k.id) :
     onRemoved (.ws wc) kept = (zipWithWeights kept w').map MParams.ws :=
@@ -301,7 +372,7 @@ theorem reduced_problem_weightedSum_value {a1 a2 : Alt α} {wc : List (WCrit α)
 
 /-- OWA: the parameters after omission are the kept criteria with the reduced request's weights, and
     `OWA` values every alternative as under the (weight-sorted) parameters the reduced request parses to -/
-theorem reduced_problem_owa_partial {all kept : List (Crit Rat)} {w w' : KMap Rat} {z : List (WCrit Rat)}
+theorem reduced_problem_owa {all kept : List (Crit Rat)} {w w' : KMap Rat} {z : List (WCrit Rat)}
     (hz : zipWithWeights all w = .ok z) (hnd : (all.map (·.id)).Nodup)
     (hsub : ∀ k ∈ kept, k ∈ all) (hw : ∀ k ∈ kept, w'.get? k.id = w.get? k.id)
     {mp : MParams Rat} (h : onRemoved (.owa (sortWCrits z)) kept = .ok mp) :
@@ -311,7 +382,7 @@ theorem reduced_problem_owa_partial {all kept : List (Crit Rat)} {w w' : KMap Ra
 
 /-- majority heuristic: after omission the weights map holds exactly the kept criteria with the reduced
     request's weights; current choice, seed, ordering flag and draw resolution are untouched -/
-theorem reduced_problem_majority_partial {kept : List (Crit α)} {w w' : KMap α} {cur : String} {seed : Int}
+theorem reduced_problem_majority {kept : List (Crit α)} {w w' : KMap α} {cur : String} {seed : Int}
     {rnd : Bool} {dr : String} {mp : MParams α}
     (h : onRemoved (.majority w cur seed rnd dr) kept = .ok mp)
     (hw : ∀ k ∈ kept, w'.get? k.id = w.get? k.id) :
@@ -319,24 +390,180 @@ theorem reduced_problem_majority_partial {kept : List (Crit α)} {w w' : KMap α
       ∀ k ∈ kept, wk.get? k.id = w'.get? k.id :=
   majority_reduced_commutes h hw
 
+/-- Choquet: `OnCriteriaRemoved` keeps exactly the capacities of the non-empty subsets of the kept criteria,
+    under their canonical keys; the reduced request (the capacity entries naming kept criteria only) is
+    accepted by `parse`, and its parsed table agrees with the kept capacities on every subset of the kept
+    criteria — the only keys the integral of an alternative over the kept criteria reads
+    (`reduced_problem_choquet_value`).  `KeysSplit kept`: canonical keys split into the criteria they were
+    built from (ids without commas; `String.splitOn` is opaque to the kernel, hence a hypothesis). -/
+theorem reduced_problem_choquet {all kept : List (Crit α)} {w : KMap α} {mp mp' : MParams α}
+    (hp : parseParams all (.choquet w) = .ok mp) (hnd : (all.map (·.id)).Nodup)
+    (hsub : ∀ k ∈ kept, k ∈ all) (hkn : (kept.map (·.id)).Nodup) (hkey : KeysSplit kept)
+    (hr : onRemoved mp kept = .ok mp') :
+    ∃ r r', mp = .choquet r all ∧ mp' = .choquet (restrictCapacities r kept) kept ∧
+      (restrictCapacities r kept).keys = (powerSet (kept.map (·.id))).map criterionKey ∧
+      parseParams kept (restrictRaw kept (.choquet w)) = .ok (.choquet r' kept) ∧
+      ∀ s ∈ powerSet (kept.map (·.id)),
+        (restrictCapacities r kept).get? (criterionKey s) = r'.get? (criterionKey s) :=
+  choquet_square hp hnd hsub hkn hkey hr
+
+/-- … and two capacity tables that agree on the subsets of the kept criteria give every alternative over the
+    kept criteria the same Choquet integral -/
+theorem reduced_problem_choquet_value (eps : α) {kept : List (Crit α)} {w w' : KMap α}
+    (hkn : (kept.map (·.id)).Nodup)
+    (hw : ∀ s ∈ powerSet (kept.map (·.id)), w.get? (criterionKey s) = w'.get? (criterionKey s))
+    {a : Alt α} (ha : a.vals.keys = kept.map (·.id)) :
+    choquetValue eps a w = choquetValue eps a w' := choquetValue_congr_kept eps hkn hw ha
+
+/-- ELECTRE III: the restricted `electreCriteria` table (valid, because the entries were valid in the full
+    request), the same distillation function — exactly what the reduced request parses to -/
+theorem reduced_problem_electre {all kept : List (Crit α)} {ec : KMap (ECrit α)} {dist : Option (LinFun α)}
+    {mp mp' : MParams α} (hp : parseParams all (.electre ec dist) = .ok mp) (hsub : ∀ k ∈ kept, k ∈ all)
+    (hr : onRemoved mp kept = .ok mp') :
+    parseParams kept (restrictRaw kept (.electre ec dist)) = .ok mp' := electre_square hp hsub hr
+
+/-- … and entries of undeclared criteria are never read by the credibility matrix: a reduced request that
+    keeps the omitted criteria's entries is ranked the same -/
+theorem reduced_problem_electre_value {alts : List (Alt α)} {crits : List (Crit α)} {ec ec' : KMap (ECrit α)}
+    (dist : LinFun α) (h : ∀ c ∈ crits, ec.get? c.id = ec'.get? c.id) :
+    electreIII alts crits ec dist = electreIII alts crits ec' dist := electreIII_congr dist h
+
+/-- aspect elimination: weights restricted, explicit threshold levels restricted level by level,
+    coefficient levels unchanged — exactly the reduced request's parameters -/
+theorem reduced_problem_aspectElimination {all kept : List (Crit α)} {fn : String} {lv : Levels α}
+    {seed : Int} {w : KMap α} {rnd : Bool} {mp mp' : MParams α}
+    (hp : parseParams all (.aspect fn lv seed w rnd) = .ok mp) (hr : onRemoved mp kept = .ok mp') :
+    mp' = .aspect fn (restrictLevels lv kept) seed (restrictMap w kept) rnd ∧
+      parseParams kept (restrictRaw kept (.aspect fn lv seed w rnd)) = .ok mp' := by
+  refine ⟨?_, aspect_square hp hr⟩
+  rw [parseParams_aspect] at hp; cases hp
+  exact onRemoved_eq_restrict hr
+
+/-- satisfaction: explicit threshold levels restricted level by level, coefficient levels unchanged; function
+    name, seed, current choice and ordering flag untouched — exactly the reduced request's parameters -/
+theorem reduced_problem_satisfaction {all kept : List (Crit α)} {fn : String} {lv : Levels α} {seed : Int}
+    {cur : String} {rnd : Bool} {mp mp' : MParams α}
+    (hp : parseParams all (.satisf fn lv seed cur rnd) = .ok mp) (hr : onRemoved mp kept = .ok mp') :
+    mp' = .satisf fn (restrictLevels lv kept) seed cur rnd ∧
+      parseParams kept (restrictRaw kept (.satisf fn lv seed cur rnd)) = .ok mp' := by
+  refine ⟨?_, satisf_square hp hr⟩
+  rw [parseParams_satisf] at hp; cases hp
+  exact onRemoved_eq_restrict hr
+
+/-- restriction of the levels, spelled out: coefficient levels unchanged, explicit thresholds per level -/
+theorem restricted_levels (kept : List (Crit α)) :
+    (∀ c mx mn : α, restrictLevels (.coef c mx mn) kept = .coef c mx mn) ∧
+      ∀ ts : List (KMap α), restrictLevels (.thresholds ts) kept = .thresholds (ts.map fun t => restrictMap t kept) :=
+  ⟨fun _ _ _ => rfl, fun _ => rfl⟩
+
+/-- all seven squares in one statement: `OnCriteriaRemoved ∘ ParseParams = ParseParams ∘ restrict`, where
+    "=" is `ParamsMatch` (equality; for OWA up to the weight sort OWA performs anyway; for Choquet up to
+    capacity entries the integral never reads) -/
+theorem reduced_problem_parameters {all kept : List (Crit Rat)} {raw : RawParams Rat} {mp mp' : MParams Rat}
+    (hp : parseParams all raw = .ok mp) (hnd : (all.map (·.id)).Nodup) (hsub : ∀ k ∈ kept, k ∈ all)
+    (hkn : (kept.map (·.id)).Nodup) (hkey : ∀ w, raw = .choquet w → KeysSplit kept)
+    (hr : onRemoved mp kept = .ok mp') :
+    ∃ mp'', parseParams kept (restrictRaw kept raw) = .ok mp'' ∧ ParamsMatch kept mp' mp'' :=
+  reduced_params_commute hp hnd hsub hkn hkey hr
+
+/-- **the decision after criteria omission equals the decision for the request with the omitted criteria
+    deleted** — for every method (`raw` ranges over the seven methods' parameters), every ordering, ratio,
+    clamps and seed.
+
+    Full request: criteria `all` (distinct ids), alternatives `nc`/`co`, raw method parameters `raw`;
+    `requestState` is the state `MakeDecision` builds from it (`ParseParams`).  The bias keeps `res.crit`.
+    Reduced request: the kept criteria in the order the bias leaves them, every alternative with the kept
+    values only, the raw parameters restricted to the kept criteria.  Then: the reduced request is accepted,
+    its state has the same criteria and alternatives as the state the bias hands on, its parameters match,
+    and `Evaluate` returns the same ranking on both, for every stream `ds` of the heuristic's generator.
+
+    For aspect elimination `evaluate` is the model for pairwise distinct weights (the caveat of the property:
+    ties between weights are broken by the seeded generator); for Choquet `KeysSplit` (ids without commas). -/
+theorem omission_equals_reduced_problem {eps : Rat} {c : SplitCond Rat} {name : String}
+    {all : List (Crit Rat)} {nc co : List (Alt Rat)} {raw : RawParams Rat} {cur res : DMP Rat}
+    {d : Draws Rat} {omitted : List (Crit Rat)}
+    (hreq : requestState nc co all raw = .ok cur)
+    (h : omissionApply eps c name cur d = .ok (res, omitted))
+    (hnd : (all.map (·.id)).Nodup) (hkey : ∀ w, raw = .choquet w → KeysSplit res.crit) :
+    ∃ reduced, requestState (nc.map (restrictAlt res.crit)) (co.map (restrictAlt res.crit)) res.crit
+        (restrictRaw res.crit raw) = .ok reduced ∧
+      reduced.crit = res.crit ∧ reduced.co = res.co ∧ reduced.nc = res.nc ∧
+      ParamsMatch res.crit res.mp reduced.mp ∧
+      ∀ ds, evaluate eps res ds = evaluate eps reduced ds :=
+  omission_decision_eq_reduced hreq h hnd hkey
+
+/-- the lift on its own: matching parameters give the same decision on a state over the kept criteria -/
+theorem matching_parameters_same_decision {eps : Rat} {kept : List (Crit Rat)} {nc co : List (Alt Rat)}
+    {mp' mp'' : MParams Rat} (hm : ParamsMatch kept mp' mp'') (hkn : (kept.map (·.id)).Nodup)
+    (hco : ∀ a ∈ co, a.vals.keys = kept.map (·.id)) (ds : Draws Rat) :
+    evaluate eps ⟨nc, co, kept, mp'⟩ ds = evaluate eps ⟨nc, co, kept, mp''⟩ ds :=
+  evaluate_paramsMatch hm hkn hco ds
+
+/-! ## the spec the driver evaluates on the implementation's output, on the model's output -/
+
+/-- `Spec.C15.check` (count, partition, restriction of considered and not considered alternatives,
+    importance per method for `weakest` / default / `strongest`) accepts the model's output — the statement
+    the driver op `check-c15` evaluates on the Go code's output, with `ranked` the listener's ranking of the
+    state before the bias.  Where the spec grants a float tolerance (`ia ≤ ib + tol·(ma+mb)`) the exact model
+    satisfies it with slack 0.
+    Hypotheses: criteria ids distinct; value keys of considered alternatives distinct; for weighted sum the
+    parameter list has an entry for every declared criterion (with no considered alternative the listener
+    never consults it, the spec does). -/
+theorem omission_satisfies_spec {eps : Rat} {c : SplitCond Rat} {name : String} {cur res : DMP Rat}
+    {d : Draws Rat} {omitted : List (Crit Rat)} {ranked : List (WCrit Rat)}
+    (h : omissionApply eps c name cur d = .ok (res, omitted)) (hr : rankAsc eps cur = .ok ranked)
+    (hnd : (cur.crit.map (·.id)).Nodup) (hco : ∀ a ∈ cur.co, a.vals.keys.Nodup)
+    (hws : ∀ wc, cur.mp = .ws wc → ∀ c ∈ cur.crit, ∃ x ∈ wc, x.crit.id = c.id) :
+    Spec.C15.check name c cur res omitted ranked = true := c15spec_check h hr hnd hco hws
+
+/-- the same in the form the driver prints -/
+theorem omission_explain_ok {eps : Rat} {c : SplitCond Rat} {name : String} {cur res : DMP Rat}
+    {d : Draws Rat} {omitted : List (Crit Rat)} {ranked : List (WCrit Rat)}
+    (h : omissionApply eps c name cur d = .ok (res, omitted)) (hr : rankAsc eps cur = .ok ranked)
+    (hnd : (cur.crit.map (·.id)).Nodup) (hco : ∀ a ∈ cur.co, a.vals.keys.Nodup)
+    (hws : ∀ wc, cur.mp = .ws wc → ∀ c ∈ cur.crit, ∃ x ∈ wc, x.crit.id = c.id) :
+    Spec.C15.explain name c cur res omitted ranked = "ok" := c15spec_explain_ok h hr hnd hco hws
+
 /-! ## satisfiability of the hypotheses -/
 
 example : (⟨1/2, 0, maxInt64⟩ : SplitCond Rat).validate = .ok () := by decide +kernel
 example : (⟨1/2, 0, maxInt64⟩ : SplitCond Rat).split [1, 2, 3, 4, 5] = .ok ([1, 2], [3, 4, 5]) := by decide +kernel
 example : (⟨1, 0, 2⟩ : SplitCond Rat).split [1, 2, 3] = .ok ([1, 2], [3]) := by decide +kernel
 
+/- the hypotheses of `omission_equals_reduced_problem` are satisfiable and the conclusion is not vacuous:
+    a two-criteria majority request, ordering `random`, half of the criteria omitted -/
+example :
+    let all : List (Crit Rat) := [{ id := "c1", type := "gain" }, { id := "c2", type := "cost" }]
+    let co : List (Alt Rat) := [{ id := "a", vals := [("c1", 2), ("c2", 3)] }, { id := "b", vals := [("c1", 1), ("c2", 5)] }]
+    let raw : RawParams Rat := .majority [("c1", 1), ("c2", 2)] "" 0 false ""
+    let c : SplitCond Rat := ⟨1/2, 0, maxInt64⟩
+    ∃ cur res omitted, requestState [] co all raw = .ok cur ∧
+      omissionApply 0 c Facts.orderingRandom cur [1/4] = .ok (res, omitted) ∧
+      (all.map (·.id)).Nodup ∧ (∀ w, raw = .choquet w → KeysSplit res.crit) ∧
+      omitted.length = 1 ∧ res.crit.length = 1 := by
+  intro all co raw c
+  have hok : (match omissionApply 0 c Facts.orderingRandom ⟨[], co, all, .majority [("c1", 1), ("c2", 2)] "" 0 false ""⟩ [1/4] with
+      | .ok p => p.2.length == 1 && p.1.crit.length == 1 | .error _ => false) = true := by
+    decide +kernel
+  cases hx : omissionApply 0 c Facts.orderingRandom ⟨[], co, all, .majority [("c1", 1), ("c2", 2)] "" 0 false ""⟩ [1/4] with
+  | error e => rw [hx] at hok; cases hok
+  | ok p =>
+    rw [hx] at hok
+    simp only [Bool.and_eq_true, beq_iff_eq] at hok
+    exact ⟨_, p.1, p.2, rfl, hx, by decide, (fun w hw => by change RawParams.majority _ _ _ _ _ = _ at hw; cases hw), hok.1, hok.2⟩
+
 /-
   Not proved here:
-  * the reduced-problem equivalence beyond the parameter level and for Choquet, ELECTRE III, aspect
-    elimination, satisfaction (see the section above; checked on the real code by the oracle
-    `omission-reduced-problem` for all seven methods);
-  * `Spec.C15.check (model output) = true` as one statement — proved are its count clause
-    (`omission_countOk`) and, as propositions, partition (`omission_partition`, `omission_disjoint`),
-    restriction (`omission_restricts`) and importance (`weakest_omits_least_important`,
-    `strongest_omits_most_important`);
-  * the Choquet importance (decomposed capacity contribution) as a closed formula: the ordering is
-    proved to be `SortByWeights` of the listener's map (`ranking_uses_importance_map`), the map itself is
-    tied to the Go listener bit-for-bit by the `listener-rank` / `order` stages;
+  * `ParseParams` (`parseParams`) and `Evaluate` (`evaluate`) used in the reduced-problem equivalence are
+    assembled in Lemmas/BiasAReducedParse.lean / BiasAReducedDecision.lean from the per-method model
+    functions; there is no single correspondence stage for the assembled functions (the per-method pieces
+    are tied by the stages of C03, C05, C11–C13; the whole by the metamorphic oracle
+    `omission-reduced-problem`).  A `Model/` definition of `MakeDecision`'s parse/evaluate dispatch would
+    turn this into a stage (proposed in the report).
+  * Choquet: the string fact `KeysSplit` (canonical keys split into their criteria) is a hypothesis —
+    `String.splitOn` / `String.intercalate` have no usable lemmas and do not reduce in the kernel.
+  * aspect elimination with tied weights: outside the claimed equivalence (ties are broken by the generator;
+    `evaluate` uses the distinct-weights model `aspectEvaluate`).
   * the frequency statement for the by-probability orderings is proved as the per-round interval
     (`byProbability_pick`) with strictly antitone shares (`byProbability_shares`), not as a probability.
 -/
